@@ -9,6 +9,7 @@ import (
 	"github.com/berquerant/crd/input/ast"
 	"github.com/berquerant/crd/op"
 	"gopkg.in/yaml.v3"
+	"pgregory.net/rapid"
 	"verifharness/theory"
 )
 
@@ -201,6 +202,65 @@ func checkC03(c C03Case) *Violation {
 
 func init() { reg("c03", checkC03) }
 
+// C03Seq: the same statement along a piece. The key in force changes with {key=..} (on chords and on rests) and
+// roots recur before and after a change: every chord is still measured from the tonic in force where it stands.
+type C03Seq struct {
+	Key   string  `json:"key"`
+	Items []PItem `json:"items"`
+}
+
+func checkC03Seq(c C03Seq) *Violation {
+	ss, ok := SyllableSentence(c.Items, c.Key)
+	if !ok {
+		return vio("harness", "progression not expressible in %s", c.Key)
+	}
+	text := Render(ss, canonStyle{})
+	res := crd(text, "text", "conv", "syllable", "--key", c.Key)
+	if v := cleanOutcome(res); v != nil {
+		return v
+	}
+	if res.Exit != 0 {
+		return vio("sequence-rejected", "text conv syllable --key %s refuses %q, whose notes all are expressible in the key in force: %s", c.Key, text, firstLines(res.Stderr, 2))
+	}
+	var doc []map[string]any
+	if err := yaml.Unmarshal(res.Stdout, &doc); err != nil || len(doc) != len(c.Items) {
+		return vio("conv-output", "%q: %d items written, output has %d entries (%v)", text, len(c.Items), len(doc), err)
+	}
+	inForce := c.Key
+	for i, it := range c.Items {
+		if it.Key != nil {
+			inForce = *it.Key
+		}
+		ch, has := doc[i]["chord"].(map[string]any)
+		if it.Rest {
+			if has {
+				return vio("conv-output", "%q: item %d is a rest, the output has a chord", text, i)
+			}
+			continue
+		}
+		what := fmt.Sprintf("%q (--key %s), item %d, key in force %s", text, c.Key, i, inForce)
+		degText, _ := ch["degree"].(string)
+		got, ok := theory.ReadNotation(degText)
+		if !ok || got != it.Deg.T() {
+			return vio("sequence-degree", "%s: root %s above the tonic expected, crd says %q", what, it.Deg.T().Notation(), degText)
+		}
+		b, hasBase := ch["base"]
+		if (it.Bass != nil) != hasBase {
+			return vio("bass-presence", "%s: bass written=%v, base emitted=%v", what, it.Bass != nil, hasBase)
+		}
+		if it.Bass != nil {
+			bt, _ := b.(string)
+			gb, ok := theory.ReadNotation(bt)
+			if !ok || gb != it.Bass.T() {
+				return vio("sequence-degree", "%s: bass %s above the root expected, crd says %q", what, it.Bass.T().Notation(), bt)
+			}
+		}
+	}
+	return nil
+}
+
+func init() { reg("c03-seq", checkC03Seq) }
+
 func TestC03(t *testing.T) {
 	r := rec("C03")
 	defer r.Flush()
@@ -235,6 +295,42 @@ func TestC03(t *testing.T) {
 			}
 		}
 	}
+	rapid.Check(t, func(t *rapid.T) {
+		key := rapid.SampledFrom(theory.ListedKeys).Draw(t, "key")
+		o := ProgOpts{MaxItems: pick(8, 16), Syllable: true, KeyChanges: 25, Settings: 5, Texts: 5, RestPct: 25, SimpleVals: true}
+		ps := genProgression(o, key).Draw(t, "prog")
+		// roots recur: repeat earlier chords after later key changes
+		if len(ps) >= 3 && coin(t, "recurring-roots", 60) {
+			for n := rapid.IntRange(1, 4).Draw(t, "nrecur"); n > 0; n-- {
+				src := ps[rapid.IntRange(0, len(ps)-1).Draw(t, "recur-src")]
+				src.Key, src.BPM, src.Vel, src.Mtr, src.Txt = nil, nil, nil, nil, nil
+				ps = append(ps, src)
+			}
+		}
+		c := C03Seq{Key: key, Items: ps}
+		changes, onRest := 0, false
+		for i, p := range ps {
+			if i > 0 && p.Key != nil {
+				changes++
+				if p.Rest {
+					onRest = true
+				}
+			}
+		}
+		cls := []string{"sequence"}
+		if changes > 0 {
+			cls = append(cls, "sequence-with-key-change")
+		}
+		if onRest {
+			cls = append(cls, "key-change-carried-by-a-rest")
+		}
+		if _, ok := SyllableSentence(ps, key); !ok {
+			r.Exclude("recurring chord not expressible in the later key")
+			return
+		}
+		r.Case("Q"+key+Render(DegreeSentence(ps), canonStyle{}), changes > 0, cls...)
+		r.Check(t, checkC03Seq(c), "c03-seq", c)
+	})
 	_ = nfail
 	msg := "28 keys x 21 roots x (no bass + 21 basses) = 12,936 chords via ast.Parse + NewSyllableASTConverter"
 	if cliStep == 1 {
